@@ -82,11 +82,11 @@ type Faults struct {
 var FaultKinds = []string{
 	"reader_error", "path_unlisted", "paths_order", "stale_targets", "stale_origins", "job_dropped",
 	"schema_swap", "hook_error", "hook_partial", "hook_empty", "hook_overflow", "lens_error",
-	"limit_knob", "prefill", "preempt", "hook_call", "origins_order", "hook_foreign_goroutine",
+	"limit_knob", "prefill", "preempt", "hook_call", "origins_order", "hook_foreign_goroutine", "request_cancelled",
 }
 
 type Stats struct {
-	Fired [18]int64
+	Fired [19]int64
 }
 
 // fire is norace: concurrent tasks share the store, and the simulator's own
